@@ -1,15 +1,38 @@
 (* Executable entry points for the C02 correspondence shards: to_write of parsed messages, re-parse, second
    write (files), and to_write of directly constructed messages (incl. the Err returned when header + payload exceed the 16 bit len field). *)
 From Coq Require Import List NArith Bool.
-From AdltV Require Import Base.Obs Base.Res Base.MachInt Dlt.Frame Dlt.Iter Dlt.Write Exec.C01.
+From AdltV Require Import Base.Obs Base.Res Base.MachInt Dlt.Frame Dlt.Iter Dlt.Write Dlt.WritePipeline Exec.C01.
 Import ListNotations.
 Open Scope N_scope.
 
 Inductive case_C02 : Type :=
 | CStream (start : N) (segs : list (N * list N))
     (* read the stream, write every message, read the written bytes, write again *)
-| CMsg (rt : N) (ecu : char4) (ts htyp mcnt len : N) (ext : option (N * N * char4 * char4)) (payload : list (N * list N)).
+| CMsg (rt : N) (ecu : char4) (ts htyp mcnt len : N) (ext : option (N * N * char4 * char4)) (payload : list (N * list N))
     (* DltMessage built field by field; to_write *)
+| CExport (specs : list (N * N * N * bool * N)).
+    (* (ecu number, reception time us, timestamp dms, timestamp flag, kind): message k = MSpec::build(k) of
+       harness/src/lcgen.rs; the file in.dlt = to_write of every message; `adlt convert -o a.dlt in.dlt`,
+       `adlt convert -o b.dlt a.dlt` (reader -> lifecycle stage -> writer, Dlt/WritePipeline.v) *)
+
+(* MSpec::build(index): kind 0 plain, 1 control request, 2 control response (non-verbose), 3 verbose control response *)
+Definition spec_msg (i : N) (s : N * N * N * bool * N) : msg :=
+  let '(e, rt, ts, h, k) := s in
+  let ext v := Some {| verb_mstp_mtin := v; noar := 1; apid := (65, 80, 73, 68); ctid := (67, 84, 73, 68) |} in
+  let '(x, p) := match k with
+                 | 0 => (None, [])
+                 | 1 => (ext 22, [19; 0; 0; 0])
+                 | 2 => (ext 38, [19; 0; 0; 0; 0])
+                 | _ => (ext 39, [17; 0; 0; 0; 1])
+                 end in
+  {| m_index := i; m_reception_us := rt; m_ecu := (69, 67, 48 + (e / 10) mod 10, 48 + e mod 10); m_timestamp := ts;
+     m_std := {| htyp := 32 + (if h then 16 else 0) + (match x with Some _ => 1 | None => 0 end); mcnt := i mod 256; len := 0 |};
+     m_ext := x; m_payload := p |}.
+Fixpoint spec_msgs (i : N) (l : list (N * N * N * bool * N)) : list msg :=
+  match l with [] => [] | s :: r => spec_msg i s :: spec_msgs (i + 1) r end.
+
+(* a file: length + checksum *)
+Definition o_file (l : bytes) : otree := T [L (blen l); L (cksum l)].
 
 Fixpoint bytes_eqb (a b : bytes) : bool :=
   match a, b with
@@ -58,5 +81,19 @@ Definition run_C02 (c : case_C02) : otree :=
                            end;
                   m_payload := bytes_of_segs payload |} in
       o_wres (msg_to_write m)
+  | CExport specs =>
+      match write_all (spec_msgs 0 specs) with
+      | Ok (WOk inp) =>
+          match convert_o inp with
+          | Ok (WOk a) =>
+              (* the input file, the export, the message counters (= input position mod 256) of the export's messages in
+                 file order, "export of the export == export" *)
+              T [L 5; o_file inp; o_file a;
+                 match run_iter 0 a with Ok (ms, _, rest) => T [T (map (fun m => L (mcnt (m_std m))) ms); L (blen rest)] | _ => L 1 end;
+                 match convert_o a with Ok (WOk b) => ob (bytes_eqb a b) | _ => L 2 end]
+          | _ => T [L 6; o_file inp]
+          end
+      | _ => T [L 7]
+      end
   end.
 Definition agree_C02 : case_C02 -> otree -> bool := agree_det run_C02.
